@@ -490,6 +490,13 @@ pub fn c08_case(c: &Case, r: &mut Rng, nperturb: usize, max_limit: u32) -> CaseO
     let mut vectors: Vec<(Vec<u32>, bool)> = Vec::new();
     if let Some(v) = &est {
         vectors.push((v.clone(), true));
+        // the front part of the estimator (strategy, window, block size, add policy) against the model
+        if d.len() <= 20000 {
+            out.requests.push((
+                format!("estimate {}", hex(d)),
+                format!("ok {} {} {} {} {} {}", v[0], v[1], v[3], v[7], v[16], v[17]),
+            ));
+        }
     }
     let base = est.clone().filter(|v| v[4] != 0).unwrap_or_else(default_vec);
     // every single-flag flip of the base vector (zlib_compatible, very_far_matches_detected,
